@@ -42,11 +42,11 @@ MC_FAMS = {
     ("C01", "quick"): [("MCEngI", 2, 0, {}, False), ("MCEngB", 2, 0, {}, False), ("MCEngA", 3, 0, {}, False), ("MCEngW2", 2, 0, {}, False)],
     ("C01", "thorough"): [("MCEngI", 2, 0, {}, False), ("MCEngA", 3, 0, {}, False), ("MCEngS", 4, 0, {}, False), ("MCEngL2", 3, 0, {}, False), ("MCEngW2", 2, 0, {}, False),
                           ("MCEngB", 3, 0, {}, False)],
-    ("C02", "quick"): [("MCEngI", 2, 0, {}, False), ("MCEngB", 2, 0, {}, True), ("MCEngS", 3, 0, {}, True), ("MCEngL1", 3, 0, {}, False)],
-    ("C02", "thorough"): [("MCEngI", 2, 0, {}, False), ("MCEngS", 4, 0, {}, True), ("MCEngA", 3, 0, {}, False), ("MCEngL1", 3, 0, {}, False),
+    ("C02", "quick"): [("MCEngI", 2, 0, {}, False), ("MCEngT", 2, 0, {"WModes": '{"none", "early"}'}, False), ("MCEngB", 2, 0, {}, True), ("MCEngS", 3, 0, {}, True), ("MCEngL1", 3, 0, {}, False)],
+    ("C02", "thorough"): [("MCEngI", 2, 0, {}, False), ("MCEngT", 2, 0, {"WModes": ALL_W}, False), ("MCEngS", 4, 0, {}, True), ("MCEngA", 3, 0, {}, False), ("MCEngL1", 3, 0, {}, False),
                           ("MCEngL2", 3, 0, {}, False), ("MCEngB", 3, 0, {}, False)],
-    ("C03", "quick"): [("MCEngI", 2, 0, {}, False), ("MCEngW2", 2, 0, {}, False)],
-    ("C03", "thorough"): [("MCEngI", 2, 0, {}, False), ("MCEngW2", 2, 0, {}, False)] +
+    ("C03", "quick"): [("MCEngI", 2, 0, {}, False), ("MCEngW2", 2, 0, {}, False), ("MCEngT", 2, 0, {"WModes": '{"none", "early", "after"}'}, False)],
+    ("C03", "thorough"): [("MCEngI", 2, 0, {}, False), ("MCEngW2", 2, 0, {}, False), ("MCEngT", 2, 0, {"WModes": ALL_W}, False)] +
                          [("MCEngW3", 3, 0, {"WModes": '{"%s"}' % w}, False) for w in el.WRAPS[1:]] +
                          [("MCEngW3b", 3, 0, {"WModes": ALL_W}, False)],
     ("C04", "quick"): [("MCEngI", 2, 0, {}, False), ("MCEngF2", 2, 2, {}, False)],
